@@ -23,6 +23,7 @@ Not decided: order edges of the emitted HUGR, behaviour after a panic.
 from __future__ import annotations
 
 import ast
+import itertools
 
 from ..absint.minieval import Opaque, Unsupported
 from ..absint.pyeval import PyEval, Raised, Tok
@@ -50,10 +51,44 @@ class Recorder:
         self.n_tmp = 0
         self.n_ctor = 0
         self.edges: list[tuple[str, str, str]] = []  # (from, to, label)
+        self.blocks: dict[str, Tok] = {}
 
     def new_bb(self) -> Tok:
         self.n_bb += 1
-        return Tok(f"bb{self.n_bb}", statements=[], __ident__=True)
+        b = Tok(f"bb{self.n_bb}", statements=[], __ident__=True)
+        self.blocks[b.name] = b
+        return b
+
+    def simulate(self, entry: str, truth) -> tuple[list[str], str]:
+        """Run the recorded block graph for one truth assignment of the branch predicates: the operands evaluated, in
+        order, and the block reached.  Two outgoing links of a block = (false successor, true successor), in link order."""
+        outs: dict[str, list[str]] = {}
+        for a, b, _ in self.edges:
+            outs.setdefault(a, []).append(b)
+        cur, seq, seen = entry, [], set()
+        self.visited = []
+        while True:
+            if cur in seen:
+                raise Unsupported("cycle in the desugared block graph")
+            seen.add(cur)
+            self.visited.append(cur)
+            seq += [o for k, o, b in self.events if k == "build" and b == cur]
+            blk = self.blocks.get(cur)
+            pred = blk.attrs.get("branch_pred") if blk is not None else None
+            nxt = outs.get(cur, [])
+            if len(nxt) == 2 and pred is not None:
+                cur = nxt[1] if truth(pred) else nxt[0]
+            elif len(nxt) == 1:
+                cur = nxt[0]
+            else:
+                return seq, cur
+
+    def tmp_value(self, name: str):
+        for b in self.blocks.values():
+            for t, e in b.attrs["statements"]:
+                if t == name:
+                    return e
+        return None
 
 
 def mk_ast(cls: str, name: str, **fields) -> Tok:
@@ -66,7 +101,7 @@ def operand(name: str) -> Tok:
     return mk_ast("Call", name, __ident__=True)  # an opaque side-effecting operand
 
 
-def interpret_branch(idx, rec: Recorder, node: Tok, builder_cls, expr_cls):
+def interpret_branch(idx, rec: Recorder, node: Tok, builder_cls, expr_cls, value_visitor=None):
     """Interpret BranchBuilder.visit(node, bb, true_bb, false_bb) with recording hooks."""
     class BuilderEval(PyEval):
         """`ast.X(...)` constructor calls build symbolic nodes."""
@@ -167,6 +202,14 @@ def interpret_branch(idx, rec: Recorder, node: Tok, builder_cls, expr_cls):
     }
     hooks = {k: v for k, v in hooks.items() if v is not None}
     env = dict(hooks)
+    if value_visitor is not None:
+        # value context: ExprBuilder.visit_X(self, node) with self.bb = entry; result = (returned node, final self.bb)
+        eself = Tok("exprbuilder", cfg=cfg, bb=entry, __classes__=[expr_cls], __ident__=True)
+        params = [a.arg for a in value_visitor.node.args.args]
+        env.update({params[0]: eself, params[1]: node})
+        out = ev.run(value_visitor.node.body, env)
+        rec.result = (out[1] if out[0] == "return" else None, eself.attrs["bb"])
+        return rec
     # generic_visit of BranchBuilder: builds the node as an expression and branches on it
     call = ast.parse("self.visit(node, bb, t, f)").body[0].value
     env.update({"self": self_tok, "node": node, "bb": entry, "t": tb, "f": fb})
@@ -180,12 +223,34 @@ def run(ctx: Ctx) -> None:
     eb_cls = idx.find_class("ExprBuilder", BLD)
     ctx.saw("classes", bb_cls.qualname)
 
-    def check_case(key: str, node: Tok, operands: list[str], where: str, gated: dict[str, str], meaning: str) -> None:
+    def check_case(key: str, node: Tok, operands: list[str], where: str, gated: dict[str, str], meaning: str, reference=None, n_atoms: int = 0) -> None:
         rec = Recorder()
         try:
             interpret_branch(idx, rec, node, bb_cls, eb_cls)
-        except (Unsupported, Raised) as e:
+            sem_bad = []
+            if reference is not None:
+                def atom_of(pred: Tok) -> int:
+                    # the branch predicate is an operand itself, or a comparison identified by its right operand
+                    if pred.name.startswith("opd"):
+                        return int(pred.name[3:])
+                    right = pred.attrs["comparators"][0]
+                    if not right.name.startswith("opd"):
+                        right = rec.tmp_value(right.attrs["id"])
+                    if right is None or not right.name.startswith("opd"):
+                        raise Unsupported(f"cannot identify predicate {pred!r}")
+                    return int(right.name[3:]) - 1
+                for bits in itertools.product((False, True), repeat=n_atoms):
+                    got = rec.simulate("bb1", lambda pred, bits=bits: bits[atom_of(pred)])
+                    want = reference(bits)
+                    if (got[0], got[1]) != (want[0], "TRUE" if want[1] else "FALSE"):
+                        sem_bad.append({"predicate_values": list(bits), "evaluated": got[0], "reaches": got[1],
+                                        "python_evaluates": want[0], "python_result": want[1]})
+        except (Unsupported, Raised, KeyError, IndexError) as e:
             ctx.undecided("R-C05.1", key, where, f"{type(e).__name__}: {e}")
+            return
+        if sem_bad:
+            ctx.violation("R-C05.1", key, where, {"operands_in_source_order": operands, "disagreements_with_python": sem_bad[:4],
+                                                  "edges": rec.edges, "assignments_tried": 2 ** n_atoms}, meaning)
             return
         builds = [(o, b) for k, o, b in rec.events if k == "build"]
         counts = {o: sum(1 for x, _ in builds if x == o) for o in operands}
@@ -194,9 +259,15 @@ def run(ctx: Ctx) -> None:
         blocks = {o: [b for x, b in builds if x == o] for o in operands}
         # an operand that Python evaluates only after an earlier test must not be built in the entry block
         gating_ok = all(all(b != "bb1" for b in blocks[o]) for o in gated)
-        ok = all(c == 1 for c in counts.values()) and first_order == operands and gating_ok
+        if reference is not None:
+            # every truth assignment of the branch predicates was simulated and agreed with Python: the order in which the
+            # builder happened to *construct* exclusive blocks is irrelevant
+            ok = True
+        else:
+            ok = all(c == 1 for c in counts.values()) and first_order == operands and gating_ok
         ctx.check(ok, "R-C05.1", key, where, {"operands_in_source_order": operands, "times_built": counts, "build_order": order, "blocks": blocks,
-                                               "must_be_behind_a_test": sorted(gated)}, meaning)
+                                               "must_be_behind_a_test": sorted(gated),
+                                               "truth_assignments_simulated": 2 ** n_atoms if reference is not None else 0}, meaning)
 
     # ---- chained comparisons
     vc = bb_cls.methods.get("visit_Compare")
@@ -206,7 +277,16 @@ def run(ctx: Ctx) -> None:
         names = [f"opd{i}" for i in range(n_ops)]
         toks = [operand(n) for n in names]
         node = mk_ast("Compare", f"cmp{n_ops}", left=toks[0], ops=[Tok(f"Lt{i}", __class__="Lt") for i in range(n_ops - 1)], comparators=toks[1:])
+        def ref_chain(bits, n_ops=n_ops):
+            seq = ["opd0", "opd1"]
+            for i, b in enumerate(bits):
+                if not b:
+                    return seq, False
+                if i + 2 < n_ops:
+                    seq.append(f"opd{i + 2}")
+            return seq, True
         check_case(f"{vc.qualname}#chained[{n_ops} operands]", node, names, vc.where, {n: "earlier comparison" for n in names[2:]},
+                   reference=ref_chain, n_atoms=n_ops - 1, meaning=
                    "a middle operand of `a < b < c` is evaluated twice (a call in it runs twice, a folded literal is folded twice), operands are "
                    "evaluated out of order, or a later operand is evaluated although an earlier comparison already failed")
     # ---- and / or
@@ -217,18 +297,49 @@ def run(ctx: Ctx) -> None:
         for n_ops in (2, 3, 4):
             names = [f"opd{i}" for i in range(n_ops)]
             node = mk_ast("BoolOp", f"{opname}{n_ops}", op=Tok(opname, __class__=opname), values=[operand(n) for n in names])
+            def ref_bool(bits, opname=opname):
+                seq = []
+                for i, b in enumerate(bits):
+                    seq.append(f"opd{i}")
+                    if b == (opname == "Or"):
+                        return seq, b
+                return seq, opname == "And"
             check_case(f"{vb.qualname}#{opname.lower()}[{n_ops} operands]", node, names, vb.where, {n: "short circuit" for n in names[1:]},
+                       reference=ref_bool, n_atoms=n_ops, meaning=
                        f"an operand of `{opname.lower()}` is evaluated twice, out of order, or not behind the short-circuit test")
     # ---- conditional expression / not
     vi = bb_cls.methods.get("visit_IfExp")
     if vi is not None:
         node = mk_ast("IfExp", "ifexp", test=operand("opd0"), body=operand("opd1"), orelse=operand("opd2"))
         check_case(f"{vi.qualname}#ifexp", node, ["opd0", "opd1", "opd2"], vi.where, {"opd1": "test", "opd2": "test"},
+                   reference=lambda bits: (["opd0", "opd1"], bits[1]) if bits[0] else (["opd0", "opd2"], bits[2]), n_atoms=3, meaning=
                    "a branch of `a if c else b` is evaluated before (or regardless of) the condition, or twice")
     vu = bb_cls.methods.get("visit_UnaryOp")
     if vu is not None:
         node = mk_ast("UnaryOp", "not", op=Tok("Not", __class__="Not"), operand=operand("opd0"))
-        check_case(f"{vu.qualname}#not", node, ["opd0"], vu.where, {}, "the operand of `not` is evaluated twice or not at all")
+        check_case(f"{vu.qualname}#not", node, ["opd0"], vu.where, {}, reference=lambda bits: (["opd0"], not bits[0]), n_atoms=1, meaning="the operand of `not` is evaluated twice or not at all")
+
+    # ---- conditional expression in value position (ExprBuilder.visit_IfExp): branch blocks + temporary + merge
+    ve = eb_cls.methods.get("visit_IfExp")
+    if ve is not None:
+        key = f"{ve.qualname}#ifexp-value"
+        node = mk_ast("IfExp", "ifexp", test=operand("opd0"), body=operand("opd1"), orelse=operand("opd2"))
+        rec = Recorder()
+        try:
+            interpret_branch(idx, rec, node, bb_cls, eb_cls, value_visitor=ve)
+            res, final_bb = rec.result
+            bad = []
+            for t in (False, True):
+                seq, end = rec.simulate("bb1", lambda pred, t=t: t)
+                want = ["opd0", "opd1"] if t else ["opd0", "opd2"]
+                assigned = [e.name for b in rec.visited for (tmp, e) in rec.blocks[b].attrs["statements"] if isinstance(res, Tok) and tmp == res.attrs.get("id")]
+                if seq != want or end != final_bb.name or assigned != [want[1]]:
+                    bad.append({"condition": t, "evaluated": seq, "python_evaluates": want, "ends_in": end, "builder_continues_in": final_bb.name,
+                                "result_variable_holds": assigned})
+            ctx.check(not bad, "R-C05.1", key, ve.where, {"disagreements_with_python": bad, "edges": rec.edges},
+                      "`a if c else b` as a value evaluates the wrong branch, both branches, or yields the other branch's value")
+        except (Unsupported, Raised, KeyError, IndexError, AttributeError, TypeError) as e:
+            ctx.undecided("R-C05.1", key, ve.where, f"{type(e).__name__}: {e}")
 
     # ---- desugarings in the checker that reuse an operand
     va = idx.method("StmtChecker", "visit_AugAssign", "guppylang_internals.checker.stmt_checker")
